@@ -261,7 +261,10 @@ CfgR  == [Cfg0 EXCEPT !.rounding = 30]
 CfgSh == [Cfg0 EXCEPT !.should = "8h!"]
 (* clock and configuration variants, one factor at a time *)
 ClockPick(minute, c, s) ==    \* quick tier: per minute one rounding (rotating) and, per command, two layouts
-    Full \/ (/\ c.round = ClockRoundings[((minute + SeedN) % 8) + 1]
+    (* thorough tier: every minute x every rounding x every command, with three rotating layouts on a rotating kind of day *)
+    IF Full THEN /\ (s \div 10) \in {minute % 6, (minute + 2) % 6, (minute + 4) % 6}
+                 /\ (s % 10) = (minute + SeedN) % 7
+    ELSE     (/\ c.round = ClockRoundings[((minute + SeedN) % 8) + 1]
              /\ (s \div 10) \in {(minute + SeedN) % 6, (minute + 3 + SeedN) % 6}
              /\ (s % 10) = (minute + SeedN) % 7)
 Variants(c, k) ==
